@@ -12,6 +12,8 @@ import r19_paired
 import r20_trisym
 import r21_clones
 import r22_adjoint
+import r24_errdrop
+import r25_dupdef
 import r06_validate
 import r07_cache
 import r08_toporder
@@ -78,6 +80,47 @@ def r5(ctx, prop):
             r.nontrivial = {i for i in r.nontrivial if i.startswith(want)}
             r.findings = [f for f in r.findings if any(w in f.key for w in want) or "floor" in f.key]
     return rs
+
+
+R24_SCOPES = {
+    "C01": ("association::Association",),
+    "C03": ("feos_core::state::State", "feos_core::density_iteration", "state::builder"),
+    "C04": ("phase_equilibria::vle_pure", "phase_equilibria::phase_diagram_pure"),
+    "C05": ("phase_equilibria::tp_flash", "phase_equilibria::bubble_dew", "phase_equilibria::phase_diagram_binary",
+            "phase_equilibria::phase_envelope"),
+    "C06": ("state::critical_point",),
+    "C07": ("phase_equilibria::stability_analysis", "phase_equilibria::tp_flash"),
+    "C18": ("feos_dft::",),
+    "C20": ("estimator::",),
+}
+
+
+def r24(ctx, prop):
+    return r24_errdrop.run(ctx.F(), R24_SCOPES[prop])
+
+
+R25_SCOPES = {
+    "C01": ("state::residual_properties", "state::properties"),
+    "C03": ("feos_core::state::State", "feos_core::density_iteration", "state::builder"),
+    "C04": ("phase_equilibria::vle_pure", "phase_equilibria::phase_diagram_pure"),
+    "C05": ("phase_equilibria::tp_flash", "phase_equilibria::bubble_dew", "phase_equilibria::phase_diagram_binary",
+            "phase_equilibria::phase_envelope"),
+    "C06": ("state::critical_point",),
+    "C07": ("phase_equilibria::stability_analysis",),
+    "C08": ("feos::",),
+    "C10": ("ideal_gas",),
+    "C17": ("feos_dft::functional", "feos_dft::convolver", "::dft::", "FunctionalContribution"),
+    "C18": ("feos_dft::solver", "feos_dft::profile", "feos_dft::interface", "feos_dft::adsorption", "feos_dft::pdgt"),
+    "C20": ("estimator::", "EntropyScaling", "state::residual_properties"),
+}
+
+
+R25_FLOORS = {"C01": 55, "C03": 80, "C04": 110, "C05": 280, "C06": 80, "C07": 20, "C08": 1200, "C10": 45, "C17": 300,
+              "C18": 400, "C20": 180}
+
+
+def r25(ctx, prop):
+    return r25_dupdef.run(ctx.F(), R25_SCOPES[prop], floor=R25_FLOORS[prop])
 
 
 def r22(ctx, prop):
@@ -213,23 +256,23 @@ def r12(ctx, prop):
 
 
 PROPERTY_RULES = {
-    "C08": [r10_wrapper, r11, r2, r20, r21],
+    "C08": [r10_wrapper, r11, r2, r20, r21, r25],
     "C09": [r12, r18, r20, r10_wrapper],
     "C02": [r3, r7],
-    "C10": [r10_selector, r8, r1_idealgas, r3, r19],
+    "C10": [r10_selector, r8, r1_idealgas, r3, r19, r25],
     "C14": [r14, r13, r10_identifier],
     "C15": [r15],
-    "C20": [r10_transport, r21],
-    "C01": [r1_all, r2, r7, r8, r4],
+    "C20": [r10_transport, r21, r25, r24],
+    "C01": [r1_all, r2, r7, r8, r4, r25, r24],
     "C13": [r1_guard, r8],
-    "C17": [r1_functional, r8, r22],
+    "C17": [r1_functional, r8, r22, r25],
     "C11": [r9, r7],
-    "C03": [r6, r17, r4, r5],
-    "C04": [r4, r16],
-    "C05": [r4, r5, r16],
-    "C06": [r4, r1_all, r21],
-    "C07": [r5, r4],
-    "C18": [r4, r16],
+    "C03": [r6, r17, r4, r5, r25, r24],
+    "C04": [r4, r16, r25, r24],
+    "C05": [r4, r5, r16, r25, r24],
+    "C06": [r4, r1_all, r21, r25, r24],
+    "C07": [r5, r4, r25, r24],
+    "C18": [r4, r16, r25, r24],
 }
 
 
